@@ -29,5 +29,5 @@ func runRegex(spec *RegexSpec, tier, id string) *RegexResult {
 	return &RegexResult{Inconcl: []string{"regex bridge not built yet"}}
 }
 
-func cmdConsts(args []string) int { return 2 }
+func cmdConsts(args []string) int   { return 2 }
 func cmdSelftest(args []string) int { return 0 }
